@@ -315,7 +315,7 @@ class Runner:
                 last = state.get('last')
                 again = False
                 if last is not None:
-                    for _ in range(5):
+                    for _ in range(25):
                         o = self.prop.run_case(last[0])
                         if any(v.signature == last[1].signature for v in o.violations):
                             again = True
